@@ -452,9 +452,9 @@ def check_walk(cfg, sim, parts, out, where, step):
                 return
 
 
-def inside_box(cfg, p):
+def inside_box(cfg, p, slack=0.0):
     rs, nx, ny, nz = box_of(cfg)
-    return all(-(rs * n) / 2. <= p[a] <= (rs * n) / 2. for a, n in (("x", nx), ("y", ny), ("z", nz)))
+    return all(-(rs * n) / 2. * (1 + slack) <= p[a] <= (rs * n) / 2. * (1 + slack) for a, n in (("x", nx), ("y", ny), ("z", nz)))
 
 
 def run_sim(cfg, out, model_budget):
@@ -498,11 +498,14 @@ def run_sim(cfg, out, model_budget):
                                  % (step, flagged[:5], len(after)), dict(cfg=cfg, step=step)))
             out.inc("f17_observed")
         live = [p for p in after if p["y"] == p["y"]]
+        merging_cfg = cfg["collision"] != "none" and cfg["resolve"] == "merge"
         hs = [p["h"] for p in after]
         if len(set(hs)) != len(hs):
             out.viol.append(("duplicate-particle", "after step %d a particle appears twice in the array" % step, dict(cfg=cfg, step=step)))
         if cfg["boundary"] in ("periodic", "shear", "open"):
-            outp = [p["h"] for p in live if not inside_box(cfg, p)]
+            # a merge product is the mass-weighted mean of two in-box positions, computed after the boundary check:
+            # on a face it can round one ulp outside (wrapped by the next step's boundary check) — tolerated
+            outp = [p["h"] for p in live if not inside_box(cfg, p, 1e-14 if merging_cfg else 0.0)]
             if outp:
                 out.viol.append(("outside-after-step", "after step %d particle(s) with hash %s lie outside the box (boundary %s)"
                                  % (step, outp[:5], cfg["boundary"]), dict(cfg=cfg, step=step)))
@@ -541,6 +544,8 @@ def run_sim(cfg, out, model_budget):
                             crossings += 1
         # ---- the tree where it is in use: right after an update
         if tree_on and step % cfg["upd_every"] == 0:
+            # exactly what reb_simulation_step does before the tree is used (rebound.c:101-110)
+            _clib.reb_boundary_check(ctypes.byref(sim))
             _clib.reb_simulation_update_tree(ctypes.byref(sim))
             for kind, text in messages(sim):
                 if kind == "e":
@@ -714,7 +719,9 @@ def worker(job, path):
     if job["cfg"].get("face") and out.notes.get("f18_seen"):
         # once a particle sits in a cell that does not contain it the next update can damage tree and heap
         # (known finding F18): everything but F17 observed in such a run is attributed to it
-        out.viol = [((k if k == F17 else F18), w, r) for k, w, r in out.viol]
+        # (tree / particle-array symptoms only; the boundary oracles keep their own keys)
+        sym = ("tree-", "step-error", "update-error", "duplicate-particle", "walk-theta0", "flagged-particle")
+        out.viol = [((F18 if (k.startswith(sym) or (k == "count-changed" and job["kind"] == "sim")) else k), w, r) for k, w, r in out.viol]
     with open(path, "w") as f:
         json.dump(dict(viol=out.viol, lines=out.lines, counts=out.counts, evals=out.evals, notes=out.notes), f)
 
